@@ -429,11 +429,11 @@ def _generate_record_class(name: str, fields: tuple[tuple[str, str]]) -> type:
         args = "*args, **kwargs"
         init_code = (
             "\t\tfor k, v in _zip_longest(__self.__slots__, args):\n"
-            "\t\t\tsetattr(__self, k, kwargs.get(k, v))\n"
+            "\t\t\t_setattr(__self, k, kwargs.get(k, v))\n"
             "\t\t_generated = __self._generated\n"
         )
         unpack_code = (
-            "\t\tvalues = dict([(f, __cls._field_types[f]._unpack(kwargs.get(f, v)) "
+            "\t\tvalues = _dict([(f, __cls._field_types[f]._unpack(kwargs.get(f, v)) "
             "if kwargs.get(f, v) is not None else None) for f, v in _zip_longest(__cls.__slots__, args)])\n"
             "\t\treturn __cls(**values)"
         )
@@ -474,6 +474,8 @@ def _generate_record_class(name: str, fields: tuple[tuple[str, str]]) -> type:
         "_RECORD_VERSION": RECORD_VERSION,
         "_utcnow": _utcnow,
         "_zip_longest": zip_longest,
+        "_setattr": setattr,
+        "_dict": dict,
     }
     for field in all_fields.values():
         _globals[f"_field_{field.name}"] = field
